@@ -32,6 +32,7 @@
 enum { O_C01 = 1, O_C04 = 2, O_C05 = 4, O_C20 = 8 };
 static int g_oracle = O_C01;
 static int g_pool = 0;
+static int g_prov = 0;   /* 1: the sinks answer uref_mgr / uclock / ubuf_mgr requests themselves (shared managers) */
 static double g_watchdog = 5;
 static const struct row *g_row;
 
@@ -46,7 +47,7 @@ enum {
 
 #define MAXOPT 4
 #define MAXVAL 4
-#define NSHAPES 4
+#define NSHAPES 5
 #define MAXSEQ 16
 
 struct side;
@@ -91,6 +92,13 @@ struct side {
     bool with_getters;      /* C20: this side calls every getter after every step */
     struct st *st;
     bool probe_drop;        /* probe_uref: the probe asks to drop */
+    int nseq;               /* buffers input on this side so far */
+    struct urequest up_req; /* an upstream request registered on the pipe; its callback pushes a buffer */
+    bool up_registered;
+    int up_provided;
+    bool probe_teardown;    /* dup row: on the first source_end of a subpipe the application releases every subpipe */
+    struct ubuf *held[MAXSEQ]; /* references kept on shared segments */
+    int nheld;
 };
 
 struct expect {
@@ -99,6 +107,7 @@ struct expect {
     bool future;            /* input carried a date in the future (time_limit holds it) */
     struct px_srec rec;
     int stamp;              /* harness stamp when it was input */
+    bool reentrant;         /* input from inside a request callback: the model of the output contract is not applied */
     bool must[4];           /* model of the output contract: sink k must receive it */
     bool mustnot[4];        /* ... must not receive it */
     int flow;               /* accepted definition when it was input */
@@ -131,6 +140,7 @@ struct st {
     struct stampev sev[64];
     int nsev;
     uint64_t hist_hash;
+    bool model_unreliable;
     bool disturbed_after_input; /* output / sink answer / flush / definition touched after the first input */
     bool ready_at_first_input;  /* S0 connected, accepting, definition accepted when the first buffer came */
     bool flushed, out_changed, sink_toggled, opt_changed_after_input;
@@ -651,15 +661,19 @@ enum {
     OP_SUB_REL0, OP_SUB_REL1,
     OP_PUMP0, OP_PUMP1,
     OP_PROBE_DROP,
+    OP_UPREQ,          /* register / withdraw an upstream uref_mgr request whose answer makes the upstream push a buffer */
+    OP_PROBE_TEARDOWN, /* dup: from now on the application releases every subpipe on the first source_end */
     OP_RELEASE,
     NOPS
 };
 
-/* input shapes: size, segments, dated, future-dated */
+/* input shapes: total size, segment sizes, future-dated, last segment shared with a reference the harness keeps */
 static const struct {
     int size, nseg;
-    bool future;
-} shapes[NSHAPES] = {{2, 1, false}, {5, 2, false}, {0, 1, false}, {3, 1, true}};
+    int seg[2];
+    bool future, shared;
+} shapes[NSHAPES] = {{2, 1, {2, 0}, false, false}, {5, 2, {3, 2}, false, false}, {0, 1, {0, 0}, false, false},
+                     {3, 1, {3, 0}, true, false}, {4, 2, {2, 2}, false, true}};
 
 static void opstr(int op, char *b, size_t n)
 {
@@ -667,7 +681,8 @@ static void opstr(int op, char *b, size_t n)
     else if (op == OP_FLOW2) snprintf(b, n, "set_flow_def(F2)");
     else if (op == OP_FLOWBAD) snprintf(b, n, "set_flow_def(bad)");
     else if (op >= OP_IN0 && op < OP_IN0 + NSHAPES)
-        snprintf(b, n, "input(size=%d,segs=%d%s)", shapes[op - OP_IN0].size, shapes[op - OP_IN0].nseg, shapes[op - OP_IN0].future ? ",future" : "");
+        snprintf(b, n, "input(size=%d,segs=%d%s%s%s)", shapes[op - OP_IN0].size, shapes[op - OP_IN0].nseg, shapes[op - OP_IN0].nseg == 2 && shapes[op - OP_IN0].seg[0] == 3 ? ":3+2" : "",
+                 shapes[op - OP_IN0].future ? ",future" : "", shapes[op - OP_IN0].shared ? ",2nd segment shared" : "");
     else if (op == OP_OUT_S0) snprintf(b, n, "set_output(S0)");
     else if (op == OP_OUT_S1) snprintf(b, n, "set_output(S1:rejecting)");
     else if (op == OP_OUT_NULL) snprintf(b, n, "set_output(NULL)");
@@ -686,6 +701,8 @@ static void opstr(int op, char *b, size_t n)
     else if (op == OP_PUMP0) snprintf(b, n, "dispatch(ready pump 0)");
     else if (op == OP_PUMP1) snprintf(b, n, "dispatch(ready pump 1)");
     else if (op == OP_PROBE_DROP) snprintf(b, n, "toggle(probe drops)");
+    else if (op == OP_UPREQ) snprintf(b, n, "toggle(upstream request, pushes a buffer when answered)");
+    else if (op == OP_PROBE_TEARDOWN) snprintf(b, n, "probe releases all subpipes on source_end");
     else if (op == OP_RELEASE) snprintf(b, n, "release");
     else snprintf(b, n, "op%d", op);
 }
@@ -705,7 +722,33 @@ static int on_event(struct px_fix *fx, struct upipe *upipe, int event, va_list a
             return UBASE_ERR_NONE;
         }
     }
+    if (event == UPROBE_SOURCE_END && s->probe_teardown) {
+        /* the application tears the pipeline down as soon as one branch ends */
+        s->probe_teardown = false;
+        for (int k = 0; k < 2; k++)
+            if (s->subs[k]) {
+                struct upipe *sub = s->subs[k];
+                s->subs[k] = NULL;
+                upipe_release(sub);
+            }
+        return UBASE_ERR_NONE;
+    }
     return UBASE_ERR_UNHANDLED;
+}
+
+static struct st *g_cur_st;
+static void do_input(struct st *st, struct side *s, int sh, bool primary, bool reentrant);
+static int up_provide(struct urequest *urequest, va_list args)
+{
+    struct side *s = urequest_get_opaque(urequest, struct side *);
+    struct uref_mgr *m = va_arg(args, struct uref_mgr *);
+    uref_mgr_release(m);
+    s->up_provided++;
+    struct st *st = g_cur_st;
+    /* the upstream now has what it was waiting for and pushes a buffer at once */
+    if (s->pipe != NULL && st->flow != 0)
+        do_input(st, s, 0, s == &st->a, true);
+    return UBASE_ERR_NONE;
 }
 
 static void side_init(struct st *st, struct side *s, bool with_getters)
@@ -717,8 +760,12 @@ static void side_init(struct st *st, struct side *s, bool with_getters)
     s->st = st;
     s->with_getters = with_getters;
     s->fx.sinks[1].reject = true;
-    for (int i = 0; i < PX_NSINKS; i++)
+    for (int i = 0; i < PX_NSINKS; i++) {
         s->fx.sinks[i].unhandled_requests = true; /* requests end up at the probes, which provide */
+        s->fx.sinks[i].sync_provide = g_prov != 0; /* ... or the sinks answer with the shared managers */
+    }
+    urequest_init_uref_mgr(&s->up_req, up_provide, NULL);
+    urequest_set_opaque(&s->up_req, s);
     s->pipe = g_row->alloc(s);
     assert(s->pipe);
     if (s->qsrc) /* the far end of the queue delivers into S0 */
@@ -787,6 +834,19 @@ static void run_getters(struct st *st, struct side *s, const char *when)
     }
     struct uref *fd = NULL;
     e = upipe_get_flow_def(s->pipe, &fd);
+    if (ubase_check(e) && !strcmp(g_row->name, "setflowdef") && st->flow != 0) {
+        /* documented: the output definition is the input definition plus the attributes of the dictionary */
+        uint64_t id = 0, xa = 0;
+        const char *xs = NULL;
+        int vi = st->optmodel[0] < 0 ? 0 : st->optmodel[0];
+        bool has_a = fd != NULL && ubase_check(uref_attr_get_unsigned(fd, &xa, UDICT_TYPE_UNSIGNED, "x.a"));
+        bool has_s = fd != NULL && ubase_check(uref_attr_get_string(fd, &xs, UDICT_TYPE_STRING, "x.s"));
+        if (fd == NULL || !ubase_check(uref_flow_get_id(fd, &id)) || (int)id != st->flow)
+            FAIL(st, "get-flow-def:wrong-value", "upipe_get_flow_def returned id %d, accepted definition has id %d (%s)", fd ? (int)id : -1, st->flow, when);
+        else if (has_a != (vi > 0) || (has_a && (int)xa != vi) || has_s != (vi == 2))
+            FAIL(st, "get-flow-def:stale-dictionary", "upipe_get_flow_def carries x.a=%s%d x.s=%s but the dictionary in force is value #%d (%s)", has_a ? "" : "absent/",
+                 (int)xa, has_s ? "present" : "absent", vi, when);
+    }
     if (ubase_check(e) && g_row->kind != K_RECHUNK && strcmp(g_row->name, "genaux") && strcmp(g_row->name, "setflowdef")) {
         uint64_t id = 0;
         if (st->flow == 0) {
@@ -840,18 +900,17 @@ static void sev_add(struct st *st, int stamp, int sink, int what)
         st->sev[st->nsev++] = (struct stampev){stamp, sink, what};
 }
 
-static int apply_side(struct st *st, struct side *s, int op, bool primary)
+static void do_input(struct st *st, struct side *s, int sh, bool primary, bool reentrant)
 {
     struct px_fix *fx = &s->fx;
-    int e = UBASE_ERR_NONE;
-    if (op == OP_FLOW1 || op == OP_FLOW2 || op == OP_FLOWBAD) {
-        struct uref *f = op == OP_FLOWBAD ? px_flow(fx, g_row->bad_def, 3) : px_flow(fx, "block.", op == OP_FLOW1 ? 1 : 2);
-        e = upipe_set_flow_def(s->pipe, f);
-        uref_free(f);
-    } else if (op >= OP_IN0 && op < OP_IN0 + NSHAPES) {
-        int sh = op - OP_IN0;
-        int seq = st->nseq;
-        struct uref *u = px_uref(fx, seq, shapes[sh].size, shapes[sh].nseg, true);
+    {
+        int seq = s->nseq++;
+        if (seq >= MAXSEQ - 1)
+            return;
+        struct ubuf *held = NULL;
+        struct uref *u = px_uref_segs(fx, seq, shapes[sh].seg, shapes[sh].nseg, true, shapes[sh].shared ? &held : NULL);
+        if (held != NULL && s->nheld < MAXSEQ)
+            s->held[s->nheld++] = held;
         if (shapes[sh].future)
             uref_clock_set_cr_sys(u, fx->clock.now + 500);
         if (primary) {
@@ -867,12 +926,16 @@ static int apply_side(struct st *st, struct side *s, int op, bool primary)
                 x->rec.bytes[i] = px_octet(seq, i);
             px_attr_dump(u, x->rec.attrs, sizeof(x->rec.attrs));
             x->forwarded = true;
+            x->reentrant = reentrant;
             x->flow = st->flow;
             if (g_row->expect)
                 g_row->expect(st, u, seq, &x->rec, &x->forwarded);
             if (st->ninputs == 0)
                 st->ready_at_first_input = st->flow != 0 && st->out == 1 && !fx->sinks[0].reject;
-            if ((g_row->kind == K_ONE2ONE || g_row->kind == K_DUP) && x->forwarded) {
+            if (reentrant || st->model_unreliable) {
+                x->reentrant = true;
+                /* nothing is predicted for a buffer pushed from inside a callback (or after one) */
+            } else if ((g_row->kind == K_ONE2ONE || g_row->kind == K_DUP) && x->forwarded) {
                 for (int k = 0; k < 4; k++)
                     x->mustnot[k] = true;
                 for (int m = 2; m >= 0; m--) /* subpipes first, like the list walk; order is irrelevant to the result */
@@ -885,6 +948,24 @@ static int apply_side(struct st *st, struct side *s, int op, bool primary)
                     x->mustnot[k] = true;
         }
         upipe_input(s->pipe, u, NULL);
+    }
+}
+
+static int apply_side(struct st *st, struct side *s, int op, bool primary)
+{
+    struct px_fix *fx = &s->fx;
+    int e = UBASE_ERR_NONE;
+    if (op == OP_FLOW1 || op == OP_FLOW2 || op == OP_FLOWBAD) {
+        struct uref *f = op == OP_FLOWBAD ? px_flow(fx, g_row->bad_def, 3) : px_flow(fx, "block.", op == OP_FLOW1 ? 1 : 2);
+        if (op == OP_FLOWBAD) { /* attributes a pipe may be tempted to read before it has validated the definition */
+            ubase_assert(uref_block_flow_set_size(f, 2));
+            ubase_assert(uref_block_flow_set_octetrate(f, 1000));
+            ubase_assert(uref_clock_set_latency(f, 77));
+        }
+        e = upipe_set_flow_def(s->pipe, f);
+        uref_free(f);
+    } else if (op >= OP_IN0 && op < OP_IN0 + NSHAPES) {
+        do_input(st, s, op - OP_IN0, primary, false);
     } else if (op == OP_OUT_S0 || op == OP_OUT_S1 || op == OP_OUT_NULL) {
         struct upipe *o = op == OP_OUT_NULL ? NULL : &fx->sinks[op - OP_OUT_S0].upipe;
         e = upipe_set_output(s->tail ? s->tail : s->pipe, o);
@@ -912,7 +993,21 @@ static int apply_side(struct st *st, struct side *s, int op, bool primary)
             return -1;
     } else if (op == OP_PROBE_DROP) {
         s->probe_drop = !s->probe_drop;
+    } else if (op == OP_UPREQ) {
+        if (!s->up_registered) {
+            s->up_registered = true;
+            upipe_register_request(s->pipe, &s->up_req);
+        } else {
+            upipe_unregister_request(s->pipe, &s->up_req);
+            s->up_registered = false;
+        }
+    } else if (op == OP_PROBE_TEARDOWN) {
+        s->probe_teardown = true;
     } else if (op == OP_RELEASE) {
+        if (s->up_registered) { /* a requester withdraws its request before letting go of the pipe */
+            upipe_unregister_request(s->pipe, &s->up_req);
+            s->up_registered = false;
+        }
         upipe_release(s->pipe);
         s->pipe = NULL;
         /* the application's handles on the inner pipes of a chain go at the same time */
@@ -967,6 +1062,10 @@ static bool op_enabled(struct st *st, int op)
         return r->uses_pumps;
     if (op == OP_PROBE_DROP)
         return !strcmp(r->name, "probe_uref");
+    if (op == OP_UPREQ)
+        return r->kind == K_ONE2ONE || r->kind == K_DUP || r->kind == K_HOLD;
+    if (op == OP_PROBE_TEARDOWN)
+        return r->has_subs && !s->probe_teardown;
     return true;
 }
 
@@ -985,8 +1084,10 @@ static int apply(void *vst, int op, bool check)
     }
     pxm_resume();
     v_watchdog(g_watchdog);
+    g_cur_st = st;
     struct px_fix *fx = &st->a.fx;
     int srec0 = fx->nsrec;
+    int nseq0 = st->a.nseq;
     int stamp0 = fx->stamp;
     int ea = apply_side(st, &st->a, op, true);
     if (ea == -1 && (op == OP_PUMP0 || op == OP_PUMP1)) {
@@ -994,9 +1095,14 @@ static int apply(void *vst, int op, bool check)
         return SEQX_DISABLED;
     }
     if (st->two) {
-        int eb = apply_side(st, &st->b, op, false);
-        if (ubase_check(ea) != ubase_check(eb))
-            FAIL(st, "diff:setter-result", "the same call returned %d without and %d with interleaved getters", eb, ea);
+        bool setter = op == OP_FLOW1 || op == OP_FLOW2 || op == OP_FLOWBAD || (op >= OP_OPT0 && op < OP_OPT0 + MAXOPT * MAXVAL);
+        if (setter && !ubase_check(ea)) {
+            /* a refused setter must leave everything as it was: the second instance simply does not get the call */
+        } else {
+            int eb = apply_side(st, &st->b, op, false);
+            if (ubase_check(ea) != ubase_check(eb))
+                FAIL(st, "diff:setter-result", "the same call returned %d on the instance without getters / refused setters and %d on the other", eb, ea);
+        }
     }
     st->nops++;
 
@@ -1013,9 +1119,11 @@ static int apply(void *vst, int op, bool check)
             om_flow(&st->om[2], id);
         }
     }
-    if (is_input) {
-        st->nseq++;
-        st->ninputs++;
+    if (st->a.nseq != nseq0) {
+        st->ninputs += st->a.nseq - nseq0;
+        st->nseq = st->a.nseq;
+        if (!is_input)
+            st->model_unreliable = true; /* buffers were pushed from inside a callback: the simple model of the output state no longer follows */
     }
     if (op == OP_OUT_S0 || op == OP_OUT_S1 || op == OP_OUT_NULL) {
         if (ubase_check(ea)) {
@@ -1067,7 +1175,7 @@ static int apply(void *vst, int op, bool check)
     }
 
     /* ---- C05, synchronous part for one-to-one pipes ---- */
-    if ((g_oracle & O_C05) && g_row->kind == K_ONE2ONE && !(op >= OP_IN0 && op < OP_IN0 + NSHAPES)) {
+    if ((g_oracle & O_C05) && g_row->kind == K_ONE2ONE && !is_input && st->a.nseq == nseq0) {
         for (int i = srec0; i < fx->nsrec; i++)
             if (fx->srec[i].kind == PXS_INPUT)
                 FAIL(st, "c05:output-without-input", "a one-to-one pipe delivered buffer seq=%" PRId64 " during a call that is not an input", fx->srec[i].seq);
@@ -1130,7 +1238,7 @@ static void check_c05_must(struct st *st, struct side *s)
         return;
     for (int q = 0; q < st->nseq; q++) {
         struct expect *x = &st->exp[q];
-        if (!x->used)
+        if (!x->used || x->reentrant)
             continue;
         for (int k = 0; k < 4; k++) {
             int n = 0;
@@ -1191,6 +1299,7 @@ static int final_check(void *vst)
     struct st *st = vst;
     pxm_resume();
     v_watchdog(g_watchdog);
+    g_cur_st = st;
     struct side *sides[2] = {&st->a, st->two ? &st->b : NULL};
     bool was_released = st->released;
     if (!was_released && g_row->uses_pumps) {
@@ -1201,6 +1310,7 @@ static int final_check(void *vst)
                 ;
         }
     }
+    st->nseq = st->a.nseq; /* callbacks may have pushed buffers while the loop ran */
     if (g_oracle & O_C05)
         check_c05_complete(st, &st->a);
     /* the application lets go of everything; then the loop runs until quiescent */
@@ -1214,6 +1324,10 @@ static int final_check(void *vst)
                 s->subs[i] = NULL;
             }
         if (s->pipe) {
+            if (s->up_registered) {
+                upipe_unregister_request(s->pipe, &s->up_req);
+                s->up_registered = false;
+            }
             upipe_release(s->pipe);
             s->pipe = NULL;
             upipe_release(s->mid);
@@ -1265,6 +1379,8 @@ static int final_check(void *vst)
                         FAIL(st, "flow:data-while-rejecting", "sink %d received a buffer (seq=%" PRId64 ") although it rejected the last flow definition", k, g->seq);
                     else if ((g_row->kind == K_ONE2ONE || g_row->kind == K_DUP) && g->seq >= 0 && g->seq < st->nseq) {
                         struct expect *x = &st->exp[g->seq];
+                        if (x->reentrant)
+                            continue;
                         if (cur_id != x->flow)
                             FAIL(st, "flow:stale-definition", "sink %d received buffer seq=%" PRId64 " of flow %d while the last definition it accepted was flow %d", k,
                                  g->seq, x->flow, cur_id);
@@ -1284,6 +1400,7 @@ static int final_check(void *vst)
             (void)cur_id;
         }
     }
+    st->nseq = st->a.nseq;
     if (g_oracle & O_C05) {
         check_c05(st, &st->a);
         check_c05_sync(st, &st->a);
@@ -1304,7 +1421,7 @@ static int final_check(void *vst)
             if (x->sink != y->sink || x->kind != y->kind || x->result != y->result || x->seq != y->seq || x->size != y->size ||
                 x->nbytes != y->nbytes || memcmp(x->bytes, y->bytes, x->nbytes > 0 ? x->nbytes : 0) || strcmp(x->attrs, y->attrs) ||
                 strcmp(x->def, y->def)) {
-                FAIL(st, "diff:sink-log", "record %d at the sinks differs between the run with interleaved getters (kind %d seq %" PRId64 " size %d) and the run without (kind %d seq %" PRId64 " size %d)",
+                FAIL(st, "diff:sink-log", "record %d at the sinks differs between the instance with interleaved getters and refused setters (kind %d seq %" PRId64 " size %d) and the instance without (kind %d seq %" PRId64 " size %d)",
                      rec, x->kind, x->seq, x->size, y->kind, y->seq, y->size);
                 break;
             }
@@ -1315,10 +1432,17 @@ static int final_check(void *vst)
         while (j < fb->nsrec && fb->srec[j].kind != PXS_FLOWDEF && fb->srec[j].kind != PXS_INPUT)
             j++;
         if (!st->viol && (i < fx->nsrec) != (j < fb->nsrec))
-            FAIL(st, "diff:sink-log-length", "the sinks saw %s definitions/buffers with interleaved getters than without", i < fx->nsrec ? "more" : "fewer");
+            FAIL(st, "diff:sink-log-length", "the sinks of the instance with interleaved getters (and refused setters) saw %s definitions/buffers than those of the instance without", i < fx->nsrec ? "more" : "fewer");
     }
 
     /* ---- teardown; C01 end state ---- */
+    for (int k = 0; k < 2; k++)
+        if (sides[k]) {
+            for (int i = 0; i < sides[k]->nheld; i++)
+                ubuf_free(sides[k]->held[i]);
+            sides[k]->nheld = 0;
+            urequest_clean(&sides[k]->up_req);
+        }
     char sg[96] = "";
     const char *m = px_fix_fini(&st->a.fx, sg, sizeof(sg));
     if (m && (g_oracle & O_C01))
@@ -1408,6 +1532,8 @@ int main(int argc, char **argv)
             g_pool = atoi(argv[++i]);
         else if (!strcmp(argv[i], "--qlen") && i + 1 < argc)
             g_qlen = atoi(argv[++i]);
+        else if (!strcmp(argv[i], "--prov") && i + 1 < argc)
+            g_prov = atoi(argv[++i]);
         else if (!strcmp(argv[i], "--list")) {
             for (int r = 0; r < NROWS; r++)
                 printf("%s\n", rows[r].name);
@@ -1424,7 +1550,7 @@ int main(int argc, char **argv)
     g_oracle = !strcmp(oracle, "C01") ? O_C01 : !strcmp(oracle, "C04") ? O_C04 : !strcmp(oracle, "C05") ? O_C05 : !strcmp(oracle, "C20") ? O_C20 : O_C01 | O_C04 | O_C05;
     static struct seqx_spec spec;
     char nm[64];
-    snprintf(nm, sizeof(nm), "pipex_cat:%s:%s:pool%d", rowname, oracle, g_pool);
+    snprintf(nm, sizeof(nm), "pipex_cat:%s:%s:pool%d:prov%d", rowname, oracle, g_pool, g_prov);
     spec.name = strdup(nm);
     spec.nops = NOPS;
     spec.init = init;
